@@ -19,9 +19,49 @@ MAX_BLOCKS = 4000
 
 
 def known_functions():
+    """{generic-stripped id: signature}"""
     p = os.path.join(HERE, "known_functions.txt")
+    out = {}
     with open(p) as f:
-        return {l.strip() for l in f if l.strip() and not l.startswith("#")}
+        for l in f:
+            if not l.strip() or l.startswith("#"):
+                continue
+            k, _, sig = l.rstrip("\n").partition("\t")
+            out[k.strip()] = sig.strip()
+    return out
+
+
+def _norm_sig(sig):
+    import re
+    s = re.sub(r"^for<[^>]*>\s*", "", sig or "")
+    s = re.sub(r"'[A-Za-z_][A-Za-z0-9_]*", "'_", s)       # lifetime names do not matter
+    return re.sub(r"\s+", " ", s).strip()
+
+
+def reidentify(raw, known):
+    """private functions of the pinned tree that were renamed or moved: an unknown function with the same signature as exactly one
+    MISSING known function, in the same impl/module (rename) or with the same name elsewhere (move), is that function.  Returns
+    {new generic-stripped id: known id}; the bodies keep their ids, the rules see them under the known name."""
+    present = {strip_generics(b["id"]) for b in raw["bodies"] if b["kind"] != "Closure"}
+    missing = {k: _norm_sig(v) for k, v in known.items() if k not in present}
+    unknown = [b for b in raw["bodies"] if b["kind"] != "Closure" and strip_generics(b["id"]) not in known]
+    alias = {}
+    taken = set()
+    for b in unknown:
+        sid = strip_generics(b["id"])
+        sig = _norm_sig(b.get("sig", ""))
+        cont, _, name = sid.rpartition("::")
+        cands = []
+        for k, ksig in missing.items():
+            if k in taken or ksig != sig:
+                continue
+            kcont, _, kname = k.rpartition("::")
+            if kcont == cont or kname == name:
+                cands.append(k)
+        if len(cands) == 1:
+            alias[sid] = cands[0]
+            taken.add(cands[0])
+    return alias
 
 
 def _shift(o, L0, B0, P0):
@@ -431,13 +471,15 @@ def inline_new_helpers(raw, log=None):
     known = known_functions()
     bodies = raw["bodies"]
     by_id = {b["id"]: b for b in bodies}
+    alias = reidentify(raw, known)
+    raw["sid_alias"] = alias
     cand = {}
     for b in bodies:
         if b["kind"] == "Closure" or b.get("exported") or b.get("reachable"):
             continue
         if (b.get("impl") or {}).get("trait"):
             continue
-        if strip_generics(b["id"]) in known:
+        if strip_generics(b["id"]) in known or strip_generics(b["id"]) in alias:
             continue
         if any(blk["term"]["k"] == "other" for blk in b["blocks"]):
             continue
